@@ -628,7 +628,9 @@ def hash_replay(ob, res, depth=5):
             r1 = {"cases": (r1.get("cases") or 0) + (r2.get("cases") or 0), "failing": r2.get("failing"), **({"error": r2["error"]} if "error" in r2 else {})}
         _hr["r"] = r1
     obs = _hr["r"]
-    if obs.get("failing"):
+    from pyvc.replay import failing_of
+    if failing_of(obs):
+        obs = dict(obs, failing=failing_of(obs))
         return {"reproduced": True, "call": "HashClient event sequence (fake clock, failing fake clients)", "input": obs["failing"], "cases_tried": obs.get("cases")}
     return {"reproduced": False, "searched": obs}
 
